@@ -267,7 +267,8 @@ def part_d(ctx):
     ladder = [("(", "1", ")"), ("[", "1", "]"), ("{ ", "1", " }"), ("if x { ", "1", " }"), ("fun() { ", "1", " }"), ("f(", "1", ")"), ("1 + ", "1", ""), ("", "x", ".y"), ("Some(", "1", ")"),
               ("-", "1", ""), ("let a = ", "1", ""), ("x = ", "1", ""), ("match x { A => ", "1", " }"), ("while x { ", "1", " }"), ("return ", "1", ""), ("assert(", "1", ")"),
               ("", "x", "()"), ("", "x", "::y"), ("Dict[1 => ", "1", "]"), ("Foo{ f: ", "1", " }"), ("try { ", "1", " } catch (e) {}"), ("for i in ", "x", " {}"), ("", "x", " {"), ("//", "", ""), ("\"", "", ""), ("\\", "", "")]
-    depths = [10, 100, 1000] if ctx.quick else [10, 100, 1000, 10000, 100000, 1000000]
+    # deeper rungs only repeat the same unbounded recursion at a huge cost in time and memory (a 10^5-deep input takes minutes per process)
+    depths = [10, 100, 1000] if ctx.quick else [10, 100, 1000, 10000]
     ctx.bound("nesting_depths", depths)
     import concurrent.futures
     failed = {}      # (construct, sub) -> (depth, kind, stderr)
